@@ -36,13 +36,13 @@ struct World {
 
 /// kinds of parent nodes: (label, arity, builder)
 #[derive(Clone)]
-struct Kind {
-    label: String,
-    arity: usize,
-    build: Arc<dyn Fn(Vec<RE>) -> RE + Send + Sync>,
+pub struct Kind {
+    pub label: String,
+    pub arity: usize,
+    pub build: Arc<dyn Fn(Vec<RE>) -> RE + Send + Sync>,
 }
 
-fn kinds() -> Vec<Kind> {
+pub fn kinds() -> Vec<Kind> {
     let mut v: Vec<Kind> = Vec::new();
     for op in ALL_UNOPS {
         v.push(Kind { label: format!("{op:?}"), arity: 1, build: Arc::new(move |mut c| RE::un(op, c.remove(0))) });
@@ -92,7 +92,7 @@ fn probe_leaf(n: &mut i128) -> RE {
 }
 
 struct Shape {
-    label: String,
+    pub label: String,
     tree: RE,
 }
 
